@@ -116,6 +116,16 @@ CHECKS = {
         "technique": SIM + "interval oracle on send times against per-host ModelCache sightings, jitter corner forcing",
         "design_ref": "DESIGN.md §5 C12",
     },
+    "C13": {
+        "text": "Seeded search over cache contents (0..400 pre-loaded pointer records and SRV/TXT/address records at ages "
+                "around half TTL), relative start timings of several askers of one question (0/1/998/999/1000/1001 ms) "
+                "inside one instance and across 1..3 real instances, forced QU/QM types and lookup timeouts; every query "
+                "datagram is decoded independently and its known-answer list, remaining TTLs, TC continuation, QU/QM "
+                "progression, spacing, and presence/absence of each question are judged against the per-host reference "
+                "cache and question-history model.",
+        "technique": SIM + "per-host ModelCache + question-history model judged against every query on the trace",
+        "design_ref": "DESIGN.md §5 C13",
+    },
     "C05": {
         "text": "Seeded search over response-datagram histories (repeats, refreshes, goodbyes, cache-flush, re-cased names) "
                 "and clock steps around the 1 s flush window, TTL expiry and the 10 s purge, driven through the real "
